@@ -379,7 +379,7 @@ pub fn drive(a: &Args) {
     }
     // long partitions (binary-search depth grows with the length): every interval queried at its own boundaries
     let maxlen = a.sz(40, 130);
-    for n in 1..=maxlen {
+    for n in (1..=maxlen).chain([255usize, 256, 257, 300]) {
         for shape in 0..3u32 {
             let ivs: Vec<Iv> = (0..n as u32)
                 .map(|k| match shape {
